@@ -154,5 +154,10 @@ end Drv.C14
 
 def main : IO Unit := Drv.runLoop fun x =>
   match x with
+  | .list (.atom "c14" :: .atom "seq" :: steps) =>
+    -- a history: the model is a pure function of the operands, so every step is answered independently
+    .list (steps.map fun st => match st with
+      | .list l => Drv.C14.handle l
+      | _ => .atom "bad-op")
   | .list (.atom "c14" :: rest) => Drv.C14.handle rest
   | _ => .atom "bad-op"
